@@ -139,7 +139,7 @@ def run(rec):
                 h = hashlib.sha256(b"soak%d/%d" % (rec.seed, j)).digest()
                 yield (lambda h=h: one(rec, s, h, v1, r1, s1))
         soak_then_reprobe(rec, "distinct-hashes", [lambda h=h, sg=sg: one(rec, s, h, sg[0], sg[1], sg[2]) for h, sg in zip(probes_h, sigs0)], distinct_hashes(),
-                          soak_size(["py_ecc.secp256k1.secp256k1"]))
+                          soak_size(["py_ecc.secp256k1.secp256k1"], cap=2500 if quick else 20000))
     else:
         rec.case("soak:distinct-hashes", None, nontrivial=False)
     # random fill
